@@ -211,6 +211,10 @@ pub fn prep_exec(
     env: Option<&[impl AsRef<OsStr>]>,
 ) -> Result<impl FnOnce() -> Result<()>> {
     let cmd = cmd.as_ref().to_owned();
+    if cmd.as_bytes().contains(&0) {
+        // the command ends up in a C string as well
+        return Err(Error::from_raw_os_error(libc::EINVAL));
+    }
     let argvec = CVec::new(args)?;
     let envvec = if let Some(env) = env {
         Some(CVec::new(env)?)
